@@ -403,12 +403,17 @@ func (g *GcsEmu) handleGcsUpdateMetadataRequest(ctx context.Context, baseUrl Htt
 		}
 		verifPoint("write.afterCheck", g.store, bucket, filename)
 
-		// Update via json decode.
+		// Update via json decode. The fields a client cannot write (a body may carry them, e.g. when a whole object
+		// resource is sent back) keep their stored values.
 		metagen := obj.Metageneration
+		generation, md5Hash, crc32c, etag, id := obj.Generation, obj.Md5Hash, obj.Crc32c, obj.Etag, obj.Id
+		timeCreated, updated := obj.TimeCreated, obj.Updated
 		err = json.NewDecoder(r.Body).Decode(&obj)
 		if err != nil {
 			return fmtErrorfCode(http.StatusBadRequest, "failed to parse request: %w", err)
 		}
+		obj.Generation, obj.Md5Hash, obj.Crc32c, obj.Etag, obj.Id = generation, md5Hash, crc32c, etag, id
+		obj.TimeCreated, obj.Updated = timeCreated, updated
 
 		if err := g.store.UpdateMeta(bucket, filename, obj, metagen+1); err != nil {
 			return fmt.Errorf("failed to update attrs of %s/%s: %w", bucket, filename, err)
